@@ -98,18 +98,20 @@ class NaiveBayes(BayesianNetwork):
         for u, v in ebunch:
             self.add_edge(u, v)
 
-    def _get_ancestors_of(self, obs_nodes_list):
+    def _get_ancestors_of(self, nodes):
         """
         Returns a list of all ancestors of all the observed nodes.
 
         Parameters
         ----------
-        obs_nodes_list: string, list-type
+        nodes: string, list-type
             name of all the observed nodes
         """
-        if not obs_nodes_list:
+        if not nodes:
             return set()
-        return set(obs_nodes_list) | set(self.dependent)
+        if not isinstance(nodes, (list, tuple, set)):
+            nodes = [nodes]
+        return set(nodes) | {self.dependent}
 
     def active_trail_nodes(self, start, observed=None):
         """
@@ -137,7 +139,7 @@ class NaiveBayes(BayesianNetwork):
         """
 
         if observed and self.dependent in observed:
-            return set(start)
+            return {start}
         else:
             return set(self.nodes()) - set(observed if observed else [])
 
@@ -163,9 +165,10 @@ class NaiveBayes(BayesianNetwork):
         """
         independencies = Independencies()
         for variable in [variables] if isinstance(variables, str) else variables:
-            if variable != self.dependent:
+            other_features = list(set(self.features) - {variable})
+            if variable != self.dependent and other_features:
                 independencies.add_assertions(
-                    [variable, list(set(self.features) - set(variable)), self.dependent]
+                    [variable, other_features, self.dependent]
                 )
         return independencies
 
